@@ -23,7 +23,7 @@ LeaderThorough ==
 
 VolumeAll  == { [nfp |-> n] : n \in 0..12 }
 TrailerAll == { [nlow |-> n, lens |-> [i \in 1..n |-> 4 * i]] : n \in 0..7 }
-ImageAll   == { [kind |-> kd, n |-> n, ndata |-> d] : kd \in {"signal", "processed"}, n \in 0..3, d \in {2, 8, 16} }
+ImageAll   == { [kind |-> kd, n |-> n, ndata |-> d, bps |-> b] : kd \in {"signal", "processed"}, n \in 0..3, d \in {8, 16}, b \in {2, 8} }
 
 QuickCases ==
        { <<"leader", p>> : p \in LeaderQuick \cup LeaderBad }
